@@ -67,22 +67,39 @@ class SpecShape:
         return SInt(self.S(self.n))
 
 
-class SpecRagged(np.lib.mixins.NDArrayOperatorsMixin):
-    def __init__(self, shape, cell, kind, dtype, name="spec"):
-        self._shape, self.cell, self.kind, self.dtype, self.name = shape, cell, kind, np.dtype(dtype), name
-        self.writes = 0
+def _ragged_base():
+    from npstructures import RaggedArray
+    return RaggedArray
 
-    # -- construction helpers ---------------------------------------------------------------
-    @classmethod
-    def symbolic(cls, ctx, name, n, L, kind="elem", dtype=np.int64):
-        """an arbitrary ragged array over the geometry (n, L): cells are applications of a fresh function of (row, column)"""
-        sort_of = {"int": z3.IntSort(), "bool": z3.BoolSort()}
-        from ..sym.arr import ElemSort
-        f = z3.Function(fresh_name(name), z3.IntSort(), z3.IntSort(), sort_of.get(kind, ElemSort))
-        shp = L if isinstance(L, SpecShape) else SpecShape(n, L, name)
-        r = cls(shp, lambda r_, c_: f(r_, c_), kind, dtype, name)
-        r.fn = f
-        return r
+
+def same_geometry(a, b, what):
+    """call-site obligation: the two geometries have the same number of rows and the same row lengths; afterwards (lemma same-lengths=>same-starts,
+    proved in vf.proofs.lemmas, and uniqueness of the row containing a flat position) their starts and row-of-position functions coincide"""
+    if a is b:
+        return
+    c = cur()
+    r0 = z3.Int(fresh_name("pre_r"))
+    c.prove(f"pre({what}): same number of rows and same row lengths", z3.And(a.n == b.n, z3.Implies(z3.And(0 <= r0, r0 < a.n), a.L(r0) == b.L(r0))),
+            kind="pre", pool=[r0])
+    c.assume(a.n == b.n)
+    c.assume_forall("same lengths => same starts", lambda r: z3.Implies(z3.And(0 <= r, r <= a.n), a.S(r) == b.S(r)))
+    c.assume_forall("same lengths => same row of a flat position", lambda j: z3.Implies(z3.And(0 <= j, j < a.S(a.n)), a.rowof(j) == b.rowof(j)))
+
+
+class _SpecRaggedMixin:
+    """see the module docstring; mixed into a subclass of the real RaggedArray (so that `isinstance(x, RaggedArray)` dispatch in the callers takes
+    the ragged branch) that overrides every operation the callers use; an operation that is not overridden fails on the missing data buffer and
+    is reported as an engine error, never as a proof"""
+
+    def __init__(self, shape, cell, kind, dtype, name="spec"):
+        self._shape, self.cell, self.kind, self._dtype, self.name = shape, cell, kind, np.dtype(dtype), name
+        self.writes = 0
+        self.is_contigous = True
+        self._safe_mode = True
+
+    @property
+    def dtype(self):
+        return self._dtype
 
     # -- geometry ---------------------------------------------------------------------------
     def __len__(self):
@@ -126,10 +143,23 @@ class SpecRagged(np.lib.mixins.NDArrayOperatorsMixin):
     def astype(self, dtype):
         return SpecRagged(self._shape, self.cell, self.kind, dtype, self.name)
 
+    def __repr__(self):
+        return f"SpecRagged({self.name})"
+
+    __str__ = __repr__
+
     # -- reading ----------------------------------------------------------------------------
     def __getitem__(self, idx):
-        if idx is Ellipsis:
+        if idx is Ellipsis or (isinstance(idx, slice) and idx == slice(None)):
             return self
+        if isinstance(idx, SpecRagged):
+            # boolean ragged mask of the same geometry: the selected cells in flat (row-major) order  (IndexableArray.__getitem__ / subset contract)
+            c = cur()
+            if idx.kind != "bool":
+                raise Unsupported("SpecRagged indexed by a non-boolean ragged array")
+            same_geometry(self._shape, idx._shape, "mask indexing")
+            from ..sym.arr import mask_gather
+            return mask_gather(self.ravel(), idx.ravel())
         if not isinstance(idx, tuple):
             raise Unsupported(f"SpecRagged row selection {type(idx).__name__}")
         idx = tuple(i for i in idx)
@@ -163,10 +193,7 @@ class SpecRagged(np.lib.mixins.NDArrayOperatorsMixin):
         ops = []
         for x in inputs:
             if isinstance(x, SpecRagged):
-                if x._shape is not sh:
-                    r0 = z3.Int(fresh_name("pre_r"))
-                    c.prove("pre(ufunc): operands have the same row lengths", z3.And(x._shape.n == sh.n, z3.Implies(z3.And(0 <= r0, r0 < sh.n), x._shape.L(r0) == sh.L(r0))),
-                            kind="pre", pool=[r0])
+                same_geometry(sh, x._shape, "ufunc")
                 ops.append(x.cell)
                 continue
             o = as_operand(x)
@@ -213,6 +240,42 @@ class SpecRagged(np.lib.mixins.NDArrayOperatorsMixin):
                 v = lambda r: coerce_term(snap(r, z3.IntVal(0)), kind)
         self.cell = lambda r, c_: z3.If(c_ == self._col(col, r), v(r), old(r, c_))
         self.writes += 1
+
+
+class _Lazy:
+    """SpecRagged is created on first use (the repository is imported by then)"""
+    cls = None
+
+
+def _make():
+    if _Lazy.cls is None:
+        _Lazy.cls = type("SpecRagged", (_SpecRaggedMixin, _ragged_base()), {})
+    return _Lazy.cls
+
+
+class _SpecRaggedMeta(type):
+    def __call__(cls, *a, **k):
+        return _make()(*a, **k)
+
+    def __instancecheck__(cls, obj):
+        return isinstance(obj, _SpecRaggedMixin)
+
+    def __getattr__(cls, name):
+        return getattr(_make(), name)
+
+
+class SpecRagged(metaclass=_SpecRaggedMeta):
+    """SpecRagged(shape, cell, kind, dtype, name) / SpecRagged.symbolic(...): instances are _SpecRaggedMixin + the real RaggedArray"""
+
+    @staticmethod
+    def symbolic(ctx, name, n, L, kind="elem", dtype=np.int64):
+        sort_of = {"int": z3.IntSort(), "bool": z3.BoolSort()}
+        from ..sym.arr import ElemSort
+        f = z3.Function(fresh_name(name), z3.IntSort(), z3.IntSort(), sort_of.get(kind, ElemSort))
+        shp = L if isinstance(L, SpecShape) else SpecShape(n, L, name)
+        r = SpecRagged(shp, lambda r_, c_: f(r_, c_), kind, dtype, name)
+        r.fn = f
+        return r
 
 
 def spec_ragged_slice(log=None):
